@@ -199,6 +199,79 @@ def d_struct_bytesize_then_minmax():
         [("s", ("dict", [("a", ("uint", 8))])), ("blob", ("bytes", 0, 3))], None
 
 
+def d_reserved_bitpos_spill():
+    return B.request([B.coded_const("sid", 0x22, 0), B.reserved("res", 8, 1, 4), B.value_param("v", B.dop("u8", 8))]), \
+        [("v", ("uint", 8))], None
+
+
+def d_leading_length_le16():
+    d = B.dop("ll16", dct=B.leading_length_type(DataType.A_BYTEFIELD, 16, hl=False), dt=DataType.A_BYTEFIELD)
+    return B.request([B.coded_const("sid", 0x22, 0), B.value_param("blob", d), B.value_param("tail", B.dop("u8", 8))]), \
+        [("blob", ("bytes", 0, 3)), ("tail", ("uint", 8))], None
+
+
+def d_leading_length_last():
+    d = B.dop("ll", dct=B.leading_length_type(DataType.A_BYTEFIELD, 8), dt=DataType.A_BYTEFIELD)
+    return B.request([B.coded_const("sid", 0x29, 0), B.value_param("blob", d)]), [("blob", ("bytes", 0, 3))], None
+
+
+def d_static_field_dynamic_item():
+    ll = B.dop("ll", dct=B.leading_length_type(DataType.A_BYTEFIELD, 8), dt=DataType.A_BYTEFIELD)
+    item = B.structure("item", [B.value_param("blob", ll)])
+    f = B.static_field("items", item, 2, 3)
+    return B.request([B.coded_const("sid", 0x2E, 0), B.value_param("items", f), B.coded_const("end", 0x55)]), \
+        [("items", ("list", ("dict", [("blob", ("bytes", 0, 2))]), [2]))], None
+
+
+def d_struct_bytesize_out_of_order():
+    st = B.structure("st", [B.value_param("a", B.dop("u8", 8))], byte_size=3)
+    return B.request([B.coded_const("sid", 0x22, 0), B.value_param("late", B.dop("u8l", 8), 5),
+                      B.value_param("s", st, 1), B.value_param("t", B.dop("u8b", 8))]), \
+        [("late", ("uint", 8)), ("s", ("dict", [("a", ("uint", 8))])), ("t", ("uint", 8))], None
+
+
+def d_dynamic_endmarker_field():
+    item = B.structure("item", [B.value_param("k", B.dop("u8", 8))])
+    f = B.dynamic_endmarker_field("items", item, B.dop("endm", 8), "255")
+    return B.request([B.coded_const("sid", 0x22, 0), B.value_param("items", f), B.coded_const("end", 0xFF)]), \
+        [("items", ("list", ("dict", [("k", ("dependent", 8))]), [0, 1, 2]))], None
+
+
+def d_dynamic_endmarker_field_last():
+    item = B.structure("item", [B.value_param("k", B.dop("u8", 8))])
+    f = B.dynamic_endmarker_field("items", item, B.dop("endm16", 16), "0")
+    return B.request([B.coded_const("sid", 0x22, 0), B.value_param("items", f)]), \
+        [("items", ("list", ("dict", [("k", ("dependent", 8))]), [0, 1, 2, 3]))], None
+
+
+def _edd():
+    common = B.env_data("common", [B.value_param("c", B.dop("u8c", 8))], all_value=True)
+    hot = B.env_data("hot", [B.value_param("t", B.dop("u8t", 8))], dtc_values=[1])
+    rev = B.env_data("rev", [B.value_param("r", B.dop("u16r", 16))], dtc_values=[2])
+    return B.env_data_desc("edd", "dtc", [common, hot, rev])
+
+
+_ENV_RECORD = ("oneof", [
+    ("dict", [("dtc", ("const", 1)), ("env", ("dict", [("c", ("uint", 8)), ("t", ("uint", 8))]))]),
+    ("dict", [("dtc", ("const", 2)), ("env", ("dict", [("c", ("uint", 8)), ("r", ("uint", 16))]))]),
+    ("dict", [("dtc", ("const", 3)), ("env", ("dict", [("c", ("uint", 8))]))]),
+])
+
+
+def d_env_data_field():
+    item = B.structure("item", [B.value_param("dtc", B.dop("u8d", 8)), B.value_param("env", _edd())])
+    f = B.end_of_pdu_field("records", item)
+    return B.response([B.coded_const("sid", 0x59, 0), B.value_param("records", f)]), \
+        [("records", ("list", _ENV_RECORD, [0, 1, 2]))], None
+
+
+def d_env_data_then_struct():
+    rec = B.structure("rec", [B.value_param("dtc", B.dop("u8d", 8)), B.value_param("env", _edd())])
+    st = B.structure("st", [B.value_param("a", B.dop("u8a", 8))])
+    return B.response([B.coded_const("sid", 0x59, 0), B.value_param("rec", rec), B.value_param("s", st)]), \
+        [("rec", _ENV_RECORD), ("s", ("dict+unknown", [("a", ("uint", 8))]))], None
+
+
 def d_linear_limited():
     d = B.dop("lim", dct=B.std_type(8), compu_method=B.linear(0, 1, DataType.A_UINT32, DataType.A_UINT32, 0, 100))
     return B.request([B.coded_const("sid", 0x2E, 0), B.value_param("pct", d, 1)]), [("pct", ("dependent", 8))], None
@@ -207,7 +280,7 @@ def d_linear_limited():
 def d_minmax_unicode_odd_offset():
     d = B.dop("ustr", dct=B.minmax_type(DataType.A_UNICODE2STRING, 0, 8, "ZERO"), dt=DataType.A_UNICODE2STRING)
     return B.request([B.coded_const("sid", 0x22, 0), B.value_param("text", d), B.coded_const("end", 0xAB)]), \
-        [("text", ("str", ["", "a", "ab", "\u0100", "a\u0100", "\u0100a", "\u6100"]))], None
+        [("text", ("str", ["", "a", "ab", "\u0100", "a\u0100", "\u0100a", "\u6100", "\u0100\u0000", "a\u0000"]))], None
 
 
 def d_minmax_unicode_le():
@@ -215,7 +288,7 @@ def d_minmax_unicode_le():
               dt=DataType.A_UNICODE2STRING)
     return B.request([B.coded_const("sid", 0x22, 0), B.coded_const("sub", 0x01), B.value_param("text", d),
                       B.coded_const("end", 0xAB)]), \
-        [("text", ("str", ["", "a", "\u00ff", "a\u00ff", "\uff00", "\u0100"]))], None
+        [("text", ("str", ["", "a", "\u00ff", "a\u00ff", "\uff00", "\u0100", "\uff01\uffff", "a\uffff"]))], None
 
 
 DESCRIPTIONS = {
@@ -231,8 +304,24 @@ DESCRIPTIONS = {
     "dynamic-length-field": d_dynamic_length_field, "dtc": d_dtc, "multiplexer": d_multiplexer,
     "table-key+struct": d_table_key_struct, "table-fixed-row": d_table_fixed_row,
     "length-key-uint": d_length_key_uint, "length-key-bytes": d_length_key_bytes,
-    "struct-bytesize+minmax0": d_struct_bytesize_then_minmax,
+    "struct-bytesize+minmax0": d_struct_bytesize_then_minmax, "reserved-bitpos-spill": d_reserved_bitpos_spill,
+    "leading-length-le16": d_leading_length_le16, "leading-length-last": d_leading_length_last,
+    "static-field-dynamic-item": d_static_field_dynamic_item,
+    "struct-bytesize-out-of-order": d_struct_bytesize_out_of_order,
+    "dynamic-endmarker-field": d_dynamic_endmarker_field,
+    "dynamic-endmarker-field-last": d_dynamic_endmarker_field_last,
+    "env-data-field": d_env_data_field, "env-data+struct": d_env_data_then_struct,
 }
+
+# descriptions in which every bit of the PDU is determined by the decoded values: no reserved bits, no padding behind
+# BYTE-SIZE / ITEM-BYTE-SIZE, no bits between objects (length keys that are no multiple of 8), no key ranges (the
+# multiplexer re-encodes the lower limit of the case); strings are left out because the abstract codec (A-codec) makes
+# the comparison undecidable for the solvers, linear-int16 because the 16 bit two's complement comparison stays unknown
+BYTES_DETERMINED = {"sid+u8", "lowhigh-12+4", "default", "phys-const", "linear-limited-u8",
+                    "minmax-zero+u8", "minmax-end-of-pdu", "minmax-hexff+const", "struct-param", "end-of-pdu-field",
+                    "leading-length-bytes", "leading-length-le16", "leading-length-last", "dynamic-length-field",
+                    "dtc", "table-key+struct", "length-key-bytes",
+                    "dynamic-endmarker-field", "dynamic-endmarker-field-last"}
 
 FUNCTIONS = [Request.encode, Request.decode, Response.encode, Response.decode,
              composite_codec_get_coded_const_prefix, composite_codec_get_static_bit_length,
@@ -261,8 +350,17 @@ def _value(name, kind):
         return H.bytes(f"val_{name}", 0, kind[2] + 2)
     if kind[0] == "str":
         return H.pick(f"val_{name}", kind[1])
+    if kind[0] == "const":
+        return kind[1]
+    if kind[0] == "pickint":
+        return H.pick(f"val_{name}", kind[1])
     if kind[0] == "dict":
         return {n: _value(f"{name}_{n}", k) for (n, k) in kind[1]}
+    if kind[0] == "dict+unknown":
+        d = {n: _value(f"{name}_{n}", k) for (n, k) in kind[1]}
+        if H.bool(f"{name}_has_a_value_for_an_unknown_parameter"):
+            d["bogus"] = 1
+        return d
     if kind[0] == "oneof":
         return _value(name, H.pick(f"alt_{name}", kind[1]))
     if kind[0] == "tuple":
@@ -283,6 +381,51 @@ def _acceptable(kind, value):
         if any([q is None for q in parts]):
             return None
         return H.And(parts)
+    return None
+
+
+def _wire(desc, values, pdu):
+    """the PDU as ISO 22901-1 prescribes it for the description, written down independently of odxtools: a byte string the PDU must
+    equal, or a condition on the PDU (None: not spelled out for this description).  Encoder and decoder erring in the same way round-trip but miss this image."""
+    v = values
+    if desc == "sid+u8":
+        return bytes([0x22, v["v"]])
+    if desc == "default":
+        return bytes([0x22, v["level"] if "level" in v else 5])
+    if desc == "lowhigh-12+4":
+        # 12 bit little endian value in the low bits of the byte pair, 4 bit value in the high nibble of the second byte
+        return H.And(len(pdu) == 3, pdu[0] == 0x10, pdu[1] + 256 * pdu[2] == v["a"] + 4096 * v["b"])
+    if desc == "reserved-bitpos-spill":
+        return bytes([0x22, 0, 0, v["v"]])
+    if desc == "reserved-middle":
+        return bytes([0x22, 0, v["v"]])
+    if desc == "phys-const":
+        return bytes([0x22, 17, v["v"]])
+    if desc == "linear-int16":
+        k = (v["x"] - 1) // 2  # internal value, 16 bit two's complement, big endian
+        return H.And(len(pdu) == 3, pdu[0] == 0x2E, 256 * pdu[1] + pdu[2] == H.ite(k >= 0, k, k + 65536))
+    if desc == "leading-length-bytes":
+        return bytes([0x22, len(v["blob"])]) + bytes(v["blob"]) + bytes([v["tail"]])
+    if desc == "leading-length-le16":
+        return bytes([0x22, len(v["blob"]), 0]) + bytes(v["blob"]) + bytes([v["tail"]])
+    if desc == "leading-length-last":
+        return bytes([0x29, len(v["blob"])]) + bytes(v["blob"])
+    if desc == "length-key-bytes" and "len" not in v:
+        return bytes([0x22, 8 * len(v["blob"])]) + bytes(v["blob"]) + bytes([0x55])
+    if desc == "struct-param":
+        return bytes([0x22, v["s"]["a"], v["s"]["b"]])
+    if desc == "struct-bytesize+u8":
+        return bytes([0x22, v["s"]["a"], 0, 0, v["t"]])
+    if desc == "struct-bytesize-out-of-order":
+        return bytes([0x22, v["s"]["a"], 0, 0, v["t"], v["late"]])
+    if desc == "static-field":
+        return bytes([0x22, v["items"][0]["k"], 0, v["items"][1]["k"], 0, 0x55])
+    if desc == "dynamic-length-field":
+        return bytes([0x22, len(v["items"])] + [it["k"] for it in v["items"]] + [0x55])
+    if desc == "dynamic-endmarker-field":
+        return bytes([0x22] + [it["k"] for it in v["items"]] + [0xFF])
+    if desc == "matching-request+const":
+        return None
     return None
 
 
@@ -309,7 +452,7 @@ def roundtrip_through_the_real_stack(desc):
             values[name] = _value(name, kind)
         else:
             omitted.append(name)
-    request_bytes = H.bytes("triggering_request", 4, 4) if trigger else None
+    request_bytes = H.bytes("triggering_request", 0, 5) if trigger else None
     required = [p.short_name for p in codec.required_parameters]
     free = [p.short_name for p in codec.free_parameters]
     try:
@@ -332,6 +475,8 @@ def roundtrip_through_the_real_stack(desc):
         return
     H.cover("encoded")
     H.check("C04:rejections-are-odxtools-errors-never-foreign-exceptions", True)
+    H.check("C04:values-for-unknown-parameters-are-rejected",
+            not any(["bogus" in v for v in values.values() if isinstance(v, dict)]))
     H.check("C08:omitting-a-required-parameter-makes-encoding-fail", all([n not in required for n in omitted]))
     H.check("C08:required-parameters-are-settable", all([n in free for n in required]))
     prefix = codec.coded_const_prefix(request_bytes) if trigger else codec.coded_const_prefix()
@@ -340,6 +485,11 @@ def roundtrip_through_the_real_stack(desc):
     static = codec.get_static_bit_length()
     if static is not None:
         H.check("C08:static-bit-length-is-the-size-of-the-pdu", 8 * len(pdu) == static)
+    image = _wire(desc, values, pdu)
+    if isinstance(image, bytes):
+        image = H.eq(bytes(pdu), image)
+    if image is not None:
+        H.check("C02,C08:pdu-is-the-wire-image-the-description-prescribes", image)
     try:
         back = codec.decode(bytes(pdu))
     except OdxError:
@@ -388,7 +538,7 @@ def decoding_arbitrary_bytes_is_total(desc):
     message = H.bytes("message", 0, 14 if desc.startswith("length-key") else 8)
     static = codec.get_static_bit_length()
     try:
-        codec.decode(message)
+        decoded = codec.decode(message)
     except DecodeError:
         H.cover("rejected")
         H.check("C05:only-decode-errors-escape-the-decoder", True)
@@ -400,6 +550,22 @@ def decoding_arbitrary_bytes_is_total(desc):
     H.check("C05:only-decode-errors-escape-the-decoder", True)
     if static is not None:
         H.check("C05:a-pdu-shorter-than-the-static-size-is-rejected", 8 * len(message) >= static)
+    if desc in BYTES_DETERMINED and not trigger:
+        # nothing is invented: what was decoded, encoded again, is what the message holds at that place
+        free = [p.short_name for p in codec.free_parameters]
+        try:
+            again = codec.encode(**{n: decoded[n] for n in free if n in decoded})
+        except OdxError:
+            return
+        # (a constant that differs from the description is reported by a warning and decoded as found: re-encoding
+        # restores the described constant, so the comparison is made for messages carrying the described constants)
+        consts_ok = [H.eq(decoded[p.short_name], p.coded_value) for p in codec.parameters
+                     if isinstance(p, CodedConstParameter)] + \
+                    [H.eq(decoded[p.short_name], p.physical_constant_value) for p in codec.parameters
+                     if isinstance(p, PhysicalConstantParameter)]
+        H.check("C05,C03:decoded-values-are-backed-by-the-bytes-of-the-message",
+                H.implies(H.And(consts_ok), H.And(len(again) <= len(message),
+                                                   H.eq(bytes(again), bytes(message)[:len(again)]))))
 
 
 # ---------------------------------------------------------------------------------------------------------------
@@ -456,7 +622,7 @@ def strict_success_implies_same_result_in_lenient_mode(desc, phase):
         _same_decoding_in_both_modes(codec)
         return
     values = {name: _value(name, kind) for (name, kind) in specs}
-    request_bytes = H.bytes("triggering_request", 4, 4) if trigger else None
+    request_bytes = H.bytes("triggering_request", 0, 5) if trigger else None
     results = []
     for strict in (True, False):
         H.set_global(X, "strict_mode", strict)
